@@ -36,15 +36,20 @@ PatchSeqs(m, k) ==
 
 Over(x, k) == {R(x, ps) : ps \in PatchSeqs(Len(Out(x)), k)}
 
-F1 == {T(1, t) : t \in TextsUpTo(MaxLen)}
-F2 == UNION {Over(T(1, t), 2) : t \in TextsUpTo(MaxLen)}
-F3 == UNION {UNION {UNION {Over(x, io[2]) : x \in Over(T(1, Pat(n)), io[1])} : n \in 0..MaxLen2} : io \in Nest}
+\* The families are given as small chunks S(key), key \in K: TLC never has to build (and sort) one
+\* large set of deeply nested records.
+F1   == {T(1, t) : t \in TextsUpTo(MaxLen)}
+F2K  == TextsUpTo(MaxLen)
+F2S(t) == Over(T(1, t), 2)
+F3K(io) == UNION {Over(T(1, Pat(n)), io[1]) : n \in 0..MaxLen2}
+F3S(io, x) == Over(x, io[2])
 
 Small == {<<>>, <<97>>, <<97, 98>>}
-\* parts are built with value 0 and numbered by their position afterwards
+\* parts are built with a dummy value and numbered by their position afterwards
 StrParts == {S(<<>>), S(<<36>>)}
 TxtParts == {T(9, t) : t \in Small}
 RepParts == UNION {{R(T(9, t), ps) : ps \in PatchSeqs(Len(t), 1) \ {<<>>}} : t \in Small}
+Parts == StrParts \cup TxtParts \cup RepParts
 RECURSIVE Renum(_, _)
 Renum(x, v) ==
   CASE x.k = "T" -> T(v, x.text)
@@ -54,24 +59,39 @@ Renum(x, v) ==
 Number(xs) == [i \in 1..Len(xs) |-> Renum(xs[i], i)]
 SeqsOf(P, n) == UNION {[1..k -> P] : k \in 1..n}
 
-F4 == {C(Number(xs)) : xs \in SeqsOf(StrParts \cup TxtParts \cup RepParts, MaxParts)}
+F4K == {<<n, p>> : n \in 1..MaxParts, p \in Parts}          \* <<number of parts, first part>>
+F4S(key) == {C(Number(<<key[2]>> \o xs)) : xs \in [1..(key[1] - 1) -> Parts]}
 Flat == {C(Number(xs)) : xs \in SeqsOf(StrParts \cup TxtParts, 2)}
-F5 == UNION {Over(c, CombP) : c \in Flat}
+F5K  == Flat
+F5S(c) == Over(c, CombP)
 F6 == {C(Number(<<c, p>>)) : c \in Flat, p \in StrParts \cup TxtParts}
       \cup {C(Number(<<p, c>>)) : c \in Flat, p \in StrParts \cup TxtParts}
       \cup (IF BothComb THEN {C(Number(<<c, d>>)) : c, d \in Flat} ELSE {})
 
-Valid == F1 \cup F2 \cup F3 \cup F4 \cup F5 \cup F6
+IsInput(b) ==
+  \/ b \in F1
+  \/ \E t \in F2K : b \in F2S(t)
+  \/ \E io \in Nest : \E x \in F3K(io) : b \in F3S(io, x)
+  \/ \E key \in F4K : b \in F4S(key)
+  \/ \E c \in F5K : b \in F5S(c)
+  \/ b \in F6
 
 AsInput(b) == [b |-> b, ranges |-> SetToSeq(QualRanges(b)), all |-> 0]
+Ser(B) == SetToSeq({AsInput(b) : b \in B})
+OverKeys(K, Chunk(_)) == LET ks == SetToSeq(K) IN FlattenSeq([i \in 1..Len(ks) |-> Ser(Chunk(ks[i]))])
+F3Ser(io) == LET Chunk(x) == F3S(io, x) IN OverKeys(F3K(io), Chunk)
+NestSeq == SetToSeq(Nest)
+\* (trees that belong to two chunks of F3 are written twice; the harness removes the duplicates)
+AllInputs ==
+  Ser(F1) \o OverKeys(F2K, F2S) \o FlattenSeq([i \in 1..Len(NestSeq) |-> F3Ser(NestSeq[i])])
+          \o OverKeys(F4K, F4S) \o OverKeys(F5K, F5S) \o Ser(F6)
 
-ASSUME /\ "OUT_FILE" \in DOMAIN IOEnv
-       => JsonSerialize(IOEnv.OUT_FILE, SetToSeq({AsInput(b) : b \in Valid}))
+ASSUME "OUT_FILE" \in DOMAIN IOEnv => JsonSerialize(IOEnv.OUT_FILE, AllInputs)
 
 \* `judged` only moves the evaluation of the invariant from the (sequential) computation of the
 \* initial states to the (parallel) successor computation
 VARIABLES input, judged
-Init == input \in Valid /\ judged = FALSE
+Init == IsInput(input) /\ judged = FALSE
 Next == ~judged /\ judged' = TRUE /\ UNCHANGED input
 SpecSane ==
   judged =>
